@@ -333,7 +333,9 @@ PAIRS = [
     dict(a="manager::whirlpool_manager::next_whirlpool_liquidity", b=PM + "pino_next_whirlpool_liquidity"),
     dict(a="manager::tick_manager::next_tick_modify_liquidity_update", b=PM + "pino_next_tick_modify_liquidity_update",
          nb={"arg_map": {"reward_growth_global": "to_reward_growths(reward_infos)"}},
-         exempt={r"^Result::Ok\{0: tick\}$": "unchanged copy: Anchor converts via From<Tick> for TickUpdate (checked by the name-copy rule R3), Pinocchio copies field-wise",
+         exempt={r"^tick$": "unchanged copy: Anchor converts via From<Tick> for TickUpdate (checked by the name-copy rule R3), Pinocchio copies field-wise",
+                 r"^TickUpdate\.(\w+) = tick\.\1$": "same",
+                 r"^Result::Ok\{0: tick\}$": "same (whole-aggregate form)",
                  r"^Result::Ok\{0: TickUpdate\{fee_growth_outside_a: tick\.fee_growth_outside_a, fee_growth_outside_b: tick\.fee_growth_outside_b, initialized: tick\.initialized, liquidity_gross: tick\.liquidity_gross, liquidity_net: tick\.liquidity_net, reward_growths_outside: tick\.reward_growths_outside\}\}$": "same",
                  r"^to_reward_growths\(": "Anchor derives the growth array from reward infos; Pinocchio receives the array"}),
     dict(a="manager::tick_manager::next_fee_growths_inside", b=PM + "pino_next_fee_growths_inside"),
